@@ -470,6 +470,10 @@ package silence
 //@   ensures [well-formed] result == nil ==> (forall k string :: k in s.st ==> s.st[k] != nil && s.st[k].Silence != nil && s.st[k].Silence.Id == k)
 //@   ensures [version-bumped] result == nil ==> s.version == old(s.version) + 1
 //@   ensures [listed-under-the-new-version] result == nil ==> (forall i int :: 0 <= i && i < len(s.vi) ==> s.vi[i].version == s.version)
+// completeness (as loop invariants): every decoded silence visited is offered to the matcher index, and the state
+// shrinks only by the silences whose matchers did not compile - ended, expired or odd silences are all kept
+//@   loop 1 invariant count("matcherIndex).add") == len(visited) && count("matcherIndex).add") >= countnil1("matcherIndex).add") && countnil1("matcherIndex).add") >= 0
+//@   loop 1 invariant len(st) + (count("matcherIndex).add") - countnil1("matcherIndex).add")) == pre(len(st))
 //@   loop 1 invariant s.version == old(s.version) && (forall i int :: 0 <= i && i < len(vi) ==> vi[i].version == old(s.version) + 1)
 //@   loop 1 invariant fresh(vi) && fresh(mi) && fresh(st) && mi != st
 //@   loop 1 invariant forall k string :: k in st ==> pre(k in st)
